@@ -27,7 +27,7 @@ def free_port():
 
 class Server(object):
     def __init__(self, kind="sync", workers=1, bind="tcp", timeout=30, graceful=4, extra=(), conf_lines=(), pidfile=True,
-                 env=None, threads=None, keepalive=None):
+                 env=None, threads=None, keepalive=None, bind_in_conf=False):
         self.scratch = tempfile.mkdtemp(prefix="verif-r-")
         os.chmod(self.scratch, 0o755)
         self.kind = kind
@@ -45,8 +45,10 @@ class Server(object):
         self.conf = os.path.join(self.scratch, "conf.py")
         self.log = os.path.join(self.scratch, "log.txt")
         self.conf_lines = list(conf_lines)
+        if bind_in_conf:
+            self.conf_lines.append("bind = %r" % self.bind)
         self.write_conf()
-        args = [PY, os.path.join(RFILES, "launcher.py"), "-k", kind, "-b", self.bind, "-t", str(timeout),
+        args = [PY, os.path.join(RFILES, "launcher.py"), "-k", kind] + ([] if bind_in_conf else ["-b", self.bind]) + ["-t", str(timeout),
                 "--graceful-timeout", str(graceful), "-c", self.conf, "--log-level", "debug"]
         if workers is not None:
             args += ["-w", str(workers)]
